@@ -27,6 +27,11 @@ MUTANTS = [
     ("vt.contracts.legs_rules", "compute_contracted_info", "cotengra/pathfinders/path_simulated_annealing.py", "        if ix_count < appearances[ix]:\n            # index appears on output", "        if ix_count <= appearances[ix]:\n            # index appears on output"),
     ("vt.contracts.legs_rules", "compute_contracted_info", "cotengra/pathfinders/path_simulated_annealing.py", "        if ix not in legsa:\n            d = size_dict[ix]", "        if True:\n            d = size_dict[ix]"),
     ("vt.contracts.legs_rules", "legs_union", "cotengra/core.py", "new_legs[ix] = new_legs.get(ix, 0) + ix_count", "new_legs[ix] = new_legs.get(ix, 1) + ix_count"),
+    # C01 Contractor.__call__: operands swapped, result stored under the wrong node, transpose applied when it must not be
+    ("vt.contracts.contractor_protocol", "Contractor.__call__", "cotengra/contract.py", "p_array = _tensordot(l_array, r_array, arg)", "p_array = _tensordot(r_array, l_array, arg)"),
+    ("vt.contracts.contractor_protocol", "Contractor.__call__", "cotengra/contract.py", "            temps[p] = p_array", "            temps[l] = p_array"),
+    ("vt.contracts.contractor_protocol", "Contractor.__call__", "cotengra/contract.py", "                if perm:", "                if not perm:"),
+    ("vt.contracts.contractor_protocol", "Contractor.__call__", "cotengra/contract.py", "            l_array = temps.pop(l)", "            l_array = temps.pop(r)"),
     # C09 DP step: the seeded early sieve on the children's scores, a table update that can make an entry worse, a lost update
     ("vt.contracts.dp_step", "optimize_optimal_connected", "cotengra/pathfinders/path_basic.py", "                        # do sorted simultaneous iteration over ilegs and jlegs", "                        if iscore + jscore > cost_cap:\n                            continue"),
     ("vt.contracts.dp_step", "optimize_optimal_connected", "cotengra/pathfinders/path_basic.py", "if (current is None) or (new_score < current[1]):", "if True:"),
